@@ -42,6 +42,7 @@ Allowed(st) == CASE st = "CREATED" -> {"RUNNING", "KILLED", "EXCEPTED"}
 
 NoExc == "-"
 None  == "-"
+NoKeep == [st |-> "none", val |-> "-", cookie |-> 0]
 Ok(s, r)  == [s |-> s, ret |-> r, exc |-> NoExc]
 Err(s, e) == [s |-> s, ret |-> None, exc |-> e]
 Then(r, Op(_)) == IF r.exc # NoExc THEN r ELSE Op(r.s)
@@ -255,7 +256,7 @@ EnterNext(s, new) ==                      \* _enter_next_state
                                             !.watched = {new.aw[i] : i \in 1..Len(new.aw)}], new.aw) ELSE a.s
          s1 == [s0 EXCEPT !.st = new.label, !.cur = new,
                            !.wf = IF new.label = "WAITING" THEN [st |-> "pending", val |-> None, cookie |-> 0] ELSE @,
-                           !.keep = IF new.label = "WAITING" THEN None ELSE @,
+                           !.keep = IF new.label = "WAITING" THEN NoKeep ELSE @,
                            !.mon.resumed = IF new.label = "WAITING" THEN FALSE ELSE @,
                            !.bad = IF last \in Terminal THEN @ \cup {"leftTerminal"} ELSE @]
      IN IF s1.closed THEN Ok(s1, None)
@@ -298,7 +299,7 @@ TransitionTo(s, new) ==
 (* ----------------------------------------------------------------------------------------------- *)
 NewAct(s, kind, text, cookie) ==
   LET a == Len(s.acts) + 1 IN
-  [s EXCEPT !.acts = Append(@, [kind |-> kind, text |-> text, status |-> "pending",
+  [s EXCEPT !.acts = Append(@, [kind |-> kind, text |-> text, status |-> "pending", void |-> FALSE,
                                 cookie |-> IF cookie = 0 THEN a ELSE cookie])]
 \* a resolved action future schedules the wake-up of the RPC reply tasks awaiting it (_schedule_rpc: `await result`)
 WakeRpcs(s, a) ==
@@ -312,7 +313,9 @@ CancelAct(s, a) == IF a # 0 /\ s.acts[a].status = "pending" THEN WakeRpcs([s EXC
 SetIntr(s, a)   ==                                                \* _set_interrupt_action
   LET lost == s.intr # 0 /\ s.acts[s.intr].status = "pending" /\ s.acts[s.intr].kind = "kill"
       s1   == IF lost THEN Dev(s, "D3") ELSE s                    \* known finding: a pending kill is dropped
-  IN [CancelAct(s1, s.intr) EXCEPT !.intr = a]
+      \* F5: an interruption whose request is superseded by a newer one is void (flag on the interruption = cookie)
+      s2   == IF "F5" \in Fixes /\ s.intr # 0 /\ a # 0 THEN [s1 EXCEPT !.acts[s1.acts[s.intr].cookie].void = TRUE] ELSE s1
+  IN [CancelAct(s2, s.intr) EXCEPT !.intr = a]
 
 Interrupt(s, a) ==                        \* self._state.interrupt(exception): only Waiting reacts
   IF s.st # "WAITING" THEN Ok(s, None)
@@ -328,7 +331,8 @@ Kill(s, text) ==
   ELSE IF s.stepping THEN
          LET s0 == NewAct(s, "kill", text, 0)
              a  == Len(s0.acts)
-             s1 == [SetIntr(s0, a) EXCEPT !.killing = a]
+             \* F4: the kill replaces (cancels) a pending pause action: the process is not "pausing" any more
+             s1 == [SetIntr(s0, a) EXCEPT !.killing = a, !.pausing = IF "F4" \in Fixes THEN 0 ELSE @]
              i  == Interrupt(s1, a)
          IN IF i.exc # NoExc THEN i ELSE Ok(i.s, "act:" \o ToString(a))
   ELSE LET t == TransitionTo(s, Killed(text)) IN IF t.exc # NoExc THEN t ELSE Ok(t.s, "True")
@@ -347,6 +351,7 @@ Pause(s, text) ==
   IF s.st \in Terminal THEN Ok(s, "False")
   ELSE IF s.pausedF # "none" THEN Ok(s, "True")
   ELSE IF s.pausing # 0 THEN Ok(s, "act:" \o ToString(s.pausing))
+  ELSE IF "F4" \in Fixes /\ s.killing # 0 THEN Ok(s, "False")      \* F4: being killed: a pause must not replace the kill
   ELSE IF s.stepping THEN
          LET s0 == NewAct(s, "pause", text, 0)
              a  == Len(s0.acts)
@@ -363,14 +368,25 @@ OnPlaying(s) ==                           \* on_playing
 Play(s) ==
   IF s.pausedF = "none"
   THEN IF s.pausing # 0
-       THEN Ok(SetIntr([CancelAct(s, s.pausing) EXCEPT !.pausing = 0], 0), "True")
+       THEN LET s0 == IF "F5" \in Fixes THEN [s EXCEPT !.acts[s.acts[s.pausing].cookie].void = TRUE] ELSE s   \* withdrawn: void
+            IN Ok(SetIntr([CancelAct(s0, s.pausing) EXCEPT !.pausing = 0], 0), "True")
        ELSE Ok(s, "True")
   ELSE LET r == OnPlaying(s) IN IF r.exc # NoExc THEN r ELSE Ok(r.s, "True")
 
+\* Waiting.resume / the completion of the awaited items: resolve the waiting future.
+\* F2: if it already holds an undelivered interruption the wake-up is remembered and handed to the re-armed future
+\*     (as written it is dropped: known findings D5 / D12)
+Interrupted(s) == s.wf.st = "exc" /\ s.wf.cookie # 0
+WakeUp(s, new) ==
+  IF s.wf.st = "pending" THEN Wake([s EXCEPT !.wf = new], "awaitWF")
+  ELSE IF "F2" \in Fixes THEN (IF Interrupted(s) /\ s.keep.st = "none" THEN [s EXCEPT !.keep = new] ELSE s)
+  ELSE IF Interrupted(s) THEN Dev(s, "D5") ELSE s
+ReArm(s) == IF "F2" \in Fixes /\ s.keep.st # "none" THEN [s EXCEPT !.wf = s.keep, !.keep = NoKeep]
+            ELSE [s EXCEPT !.wf = [st |-> "pending", val |-> None, cookie |-> 0]]
+
 Resume(s, v) ==                           \* @event(from_states=Waiting); Waiting.resume
   IF s.st # "WAITING" THEN Err(s, "EventError")
-  ELSE IF s.wf.st # "pending" THEN Ok(IF s.wf.st = "exc" THEN Dev(s, "D5") ELSE s, None)
-  ELSE Ok(Wake([s EXCEPT !.wf = [st |-> "result", val |-> v, cookie |-> 0]], "awaitWF"), None)
+  ELSE Ok(WakeUp(s, [st |-> "result", val |-> v, cookie |-> 0]), None)
 
 Fail(s, e) ==                             \* @event(to_states=Excepted)
   LET t == TransitionTo(s, Excepted(e)) IN
@@ -384,13 +400,15 @@ CallbackExcepted(s, e) ==                 \* Process.callback_excepted
 RunAction(s, a, next) ==
   IF s.acts[a].status # "pending" THEN Err(s, "InvalidStateError")
   ELSE LET r == IF s.acts[a].kind = "pause" THEN DoPause(s, s.acts[a].text, next)
+                ELSE IF "F11" \in Fixes /\ next.label = "EXCEPTED"        \* F11: the step failed: EXCEPTED, the kill answers False
+                     THEN LET t == TransitionTo(s, next) IN [t EXCEPT !.s.killing = 0, !.ret = "False"]
                 ELSE LET s0 == IF next.label = "EXCEPTED" THEN Dev(s, "D8") ELSE s
                          t  == TransitionTo(s0, Killed(s.acts[a].text)) IN [t EXCEPT !.s.killing = 0]
        IN \* set_result / set_exception on the action future; if user code reached from the action replaced
           \* (and so cancelled) the very action that is running, both raise InvalidStateError out of step()
           \* (known finding D10)
           IF r.s.acts[a].status # "pending" THEN Err(Dev(r.s, "D10"), "InvalidStateError")
-          ELSE IF r.exc = NoExc THEN Ok(WakeRpcs([r.s EXCEPT !.acts[a].status = "done"], a), None)
+          ELSE IF r.exc = NoExc THEN Ok(WakeRpcs([r.s EXCEPT !.acts[a].status = IF r.ret = "False" THEN "doneFalse" ELSE "done"], a), None)
           ELSE Ok(WakeRpcs([r.s EXCEPT !.acts[a].status = "failed:" \o r.exc], a), None)
 
 (* ----------------------------------------------------------------------------------------------- *)
@@ -413,11 +431,13 @@ RECURSIVE Advance(_)
 
 AfterExec(s, o) ==                        \* the rest of step() once execute returned / raised
   LET s1 == IF o.kind = "interruption"
-            THEN IF s.intr # 0 /\ s.acts[s.intr].cookie = o.cookie THEN s
-                 ELSE LET k  == s.acts[o.cookie]
-                          s0 == NewAct(IF k.status = "cancelled" THEN Dev(s, "D4") ELSE s, k.kind, k.text, o.cookie)
+            \* F5: the request behind this interruption was withdrawn (play) or superseded (kill): it is void
+            THEN IF "F5" \in Fixes /\ s.acts[o.cookie].void THEN s
+                 ELSE IF s.intr # 0 /\ s.acts[s.intr].cookie = o.cookie THEN s
+                 ELSE LET k  == s.acts[o.cookie]      \* (an action cancelled by step()'s finally is resurrected here)
+                          s0 == NewAct(IF k.status = "cancelled" /\ "F5" \notin Fixes THEN Dev(s, "D4") ELSE s, k.kind, k.text, o.cookie)
                       IN SetIntr(s0, Len(s0.acts))
-            ELSE IF o.kind = "exception" THEN SetIntr(s, 0)        \* except Exception: EXCEPTED, interrupt action dropped
+            ELSE IF o.kind = "exception" THEN [CancelAct(s, s.intr) EXCEPT !.intr = 0]   \* except Exception: the step failed: EXCEPTED, interrupt action dropped
             ELSE s
       gone == "F9" \in Fixes /\ s1.st \in Terminal      \* terminated (fail, callback) while the step was in flight
       s1b == IF gone THEN SetIntr(s1, 0) ELSE s1
@@ -485,8 +505,7 @@ Advance(s) ==
                      THEN AfterExec(s, [kind |-> "state",
                                         next |-> Running(s.cur.fn, IF s.wf.val = "NULL" THEN <<>> ELSE <<s.wf.val>>, <<>>)])
                 ELSE IF s.wf.cookie = 0 THEN AfterExec(s, [kind |-> "exception", exc |-> s.wf.val])
-                ELSE AfterExec([s EXCEPT !.wf = [st |-> "pending", val |-> None, cookie |-> 0]],
-                               [kind |-> "interruption", cookie |-> s.wf.cookie])
+                ELSE AfterExec(ReArm(s), [kind |-> "interruption", cookie |-> s.wf.cookie])
            [] OTHER -> AfterExec(s, [kind |-> "state", next |-> NoState])   \* terminal state objects: execute() is None
     [] s.task.pc = "inUser" ->
          IF s.task.k > 1 THEN [s EXCEPT !.task.k = @ - 1, !.sched = Append(@, "task")]
@@ -499,8 +518,7 @@ Advance(s) ==
          THEN AfterExec(s, [kind |-> "state",
                             next |-> Running(s.task.wfn, IF s.wf.val = "NULL" THEN <<>> ELSE <<s.wf.val>>, <<>>)])
          ELSE IF s.wf.cookie = 0 THEN AfterExec(s, [kind |-> "exception", exc |-> s.wf.val])
-         ELSE AfterExec([s EXCEPT !.wf = [st |-> "pending", val |-> None, cookie |-> 0]],
-                        [kind |-> "interruption", cookie |-> s.wf.cookie])
+         ELSE AfterExec(ReArm(s), [kind |-> "interruption", cookie |-> s.wf.cookie])
     [] OTHER -> s
 
 (* ----------------------------------------------------------------------------------------------- *)
@@ -511,7 +529,7 @@ InitS(pi, pl) ==
    stepping |-> FALSE, transitioning |-> FALSE, failing |-> FALSE,
    pausedF |-> "none", status |-> None, preStatus |-> None,
    acts |-> <<>>, pausing |-> 0, killing |-> 0, intr |-> 0,
-   wf |-> [st |-> "pending", val |-> None, cookie |-> 0], keep |-> None,
+   wf |-> [st |-> "pending", val |-> None, cookie |-> 0], keep |-> NoKeep,
    fut |-> [st |-> "pending", val |-> None],
    closed |-> FALSE, cleaned |-> 0, outputs |-> <<>>,
    awt |-> [i \in 1..Len(Progs[pi].awt) |-> [key |-> Progs[pi].awt[i], st |-> "pending", val |-> None, reg |-> FALSE, made |-> FALSE]],
@@ -546,6 +564,7 @@ AwaitableDone(s, i) ==
       s1  == [s EXCEPT !.awaiting = @ \ {i}]
       SetWF(t, new) ==                    \* set_result / set_exception on the (current) waiting future
         IF t.wf.st = "pending" THEN Wake([t EXCEPT !.wf = new], "awaitWF")
+        ELSE IF "F2" \in Fixes THEN WakeUp(t, new)                        \* goes through resume(): kept if interrupted, else ignored
         ELSE Note(Dev(t, "D12"), <<"looperr", "InvalidStateError">>)      \* raised inside the callback: reported to the loop
   IN IF a.st = "ok"
      THEN LET at == {j \in 1..Len(s1.ctx) : s1.ctx[j][1] = a.key}            \* self.process.ctx[key] = awaitable.result()
@@ -556,6 +575,7 @@ AwaitableDone(s, i) ==
 
 (* ---- remote control: Process.message_receive / broadcast_receive / _schedule_rpc (C16) ------------- *)
 LastCall(s) == s.log[Len(s.log)]
+ReplyOf(st) == CASE st = "done" -> "done:True" [] st = "doneFalse" -> "done:False" [] OTHER -> st
 \* run_callback(): the scheduled control call is THE SAME operator as the direct call
 RpcRun(s, i) ==
   LET m  == s.rpcs[i]
@@ -569,12 +589,10 @@ RpcRun(s, i) ==
      ELSE IF ~isAct THEN [s1 EXCEPT !.rpcs[i].st = "done:" \o e[4]]
      ELSE IF s1.acts[a].status = "pending" THEN [s1 EXCEPT !.rpcs[i].st = "await", !.rpcs[i].act = a]
      ELSE LET st == s1.acts[a].status IN      \* awaiting a future that is already resolved does not yield
-          [s1 EXCEPT !.rpcs[i].act = a,
-                     !.rpcs[i].st = IF st = "done" THEN "done:True" ELSE IF st = "cancelled" THEN "cancelled" ELSE st]
+          [s1 EXCEPT !.rpcs[i].act = a, !.rpcs[i].st = ReplyOf(st)]
 \* the reply task resumes: the awaited action future is done / failed / cancelled
 RpcWake(s, i) ==
-  LET st == s.acts[s.rpcs[i].act].status IN
-  [s EXCEPT !.rpcs[i].st = IF st = "done" THEN "done:True" ELSE IF st = "cancelled" THEN "cancelled" ELSE st]
+  [s EXCEPT !.rpcs[i].st = ReplyOf(s.acts[s.rpcs[i].act].status)]
 
 IsH(h, prefix, n) == h = prefix \o ToString(n)
 \* one event-loop callback
